@@ -189,7 +189,7 @@ func checkC05(p *Prepared, x *vrt.Exec, o *Outcome, flusher bool, fault *FsFault
 	}
 	for i, msg := range tr.viol {
 		res.Violate("invariant", "xfer/c05", map[string]any{"class": tr.violCls[i]},
-			fmt.Sprintf("%s fault=%v: %s", p.Case, fault, msg), replayT{Mode: "c05", Case: p.Case, Choices: append([]int{}, x.Choices()...), Extra: vlib.JSON(c05Extra{flusher, fault})})
+			fmt.Sprintf("%s fault=%v: %s", p.Case, fault, msg), replayT{Mode: "c05", Case: p.Case, Choices: append([]int{}, x.Choices()...), Extra: vlib.JSON(c05Extra{flusher, fault})}.withCfg(x))
 	}
 }
 
